@@ -47,7 +47,7 @@ type fnResult struct {
 func (w *world) newCtx(con *Contract, fn *ssa.Function, mode string) *ctx {
 	return &ctx{w: w, con: con, fn: fn, mode: mode, seen: map[string]bool{}, hinfo: map[string]heapInfo{}, skolem: map[string]val{}, params: map[string]val{},
 		siteOrd: map[string]int{}, maxPaths: 6000, alias: map[string]string{}, assumed: map[string]bool{}, depthCap: 6,
-		cellRootType: map[int]types.Type{}, lastAllocType: map[string]types.Type{}, memo: map[string][]memoEntry{}, knownLen: map[string]int{}, ghostConst: map[string]term{}}
+		cellRootType: map[int]types.Type{}, typeIDs: map[string]int{}, lastAllocType: map[string]types.Type{}, memo: map[string][]memoEntry{}, knownLen: map[string]int{}, ghostConst: map[string]term{}}
 }
 
 // verifyFunc symbolically executes fn (the function of con, or a concrete implementation of an interface method)
@@ -97,6 +97,7 @@ func (w *world) verifyFunc(con *Contract, fn *ssa.Function, mode string, variant
 		}
 		if v.t.s != "" && v.t.srt == sRef {
 			x.noteAllocated(st, v.t)
+			x.typeTag(st, v.t, p.Type())
 		}
 	}
 	for _, fv := range fn.FreeVars {
@@ -254,6 +255,14 @@ func (x *ctx) frameObligations(st *state, con *Contract, penv envFn, ret val) {
 			}
 		case "ghostall":
 			whole[x.ghostKey(mi.Ghost)] = true
+		case "mapof":
+			f := x.synth(con, mi.ArgFns[0])
+			v := x.evalSpecFn(x.pre, f, nil, x.bindArgs(f, nil, penv))
+			for k := range x.hinfo {
+				if strings.HasPrefix(k, "G:mapP_") || strings.HasPrefix(k, "G:mapV_") || k == "G:mapN" {
+					locs[k] = append(locs[k], v.t.s)
+				}
+			}
 		case "resultfield":
 			if ret.t.s != "" {
 				k := x.akey("G:" + mi.Field)
